@@ -52,7 +52,11 @@ class Run:
             self.interp.attach(self.listener)
         self.mon = None
         self.listener2 = None
-        if monitor:
+        if monitor == 'watchdog':
+            # a property statechart that arms a delayed self-sent event on the first state entered and turns final
+            # when that event becomes due: it must be noticed at the very next meta-event, whatever its name
+            self.interp.bind_property_statechart(watchdog_chart())
+        elif monitor:
             self.mon = Mon()
             self.interp.bind_property_statechart(
                 monitor_chart(), interpreter_klass=functools.partial(Interpreter, initial_context={'mon': self.mon}))
@@ -283,6 +287,44 @@ def run_fork(c, hist, at, mode, **kw):
     return orig, cp
 
 
+WATCHDOG_DELAY = 2
+
+
+def watchdog_chart():
+    from sismic.model import Statechart, CompoundState, BasicState, FinalState, Transition
+    sc = Statechart('watchdog', preamble='armed = False')
+    sc.add_state(CompoundState('r', initial='w'), None)
+    sc.add_state(BasicState('w'), 'r')
+    sc.add_state(FinalState('f'), 'r')
+    sc.add_transition(Transition('w', None, event='state entered', guard='not armed',
+                                 action='armed = True\nsend("wd", delay=%d)' % WATCHDOG_DELAY))
+    sc.add_transition(Transition('w', 'f', event='wd'))
+    return sc
+
+
+def watchdog_history(rng, c, length):
+    """A random history for a run monitored by the watchdog; the call at which the watchdog must fire (the first
+    execute_once whose step time is at least WATCHDOG_DELAY after the first one) carries mfail = 1."""
+    ntr = len(c['trans'])
+    hist = [{'op': 'exec', 'gv': [rng.random() < 0.5 for _ in range(ntr)], 'cfail': 0, 'mfail': 0}]
+    clk = 0
+    for _ in range(length):
+        r = rng.random()
+        if r < 0.3:
+            hist.append({'op': 'queue', 'ev': rng.choice(c['events']), 'par': 0, 'dl': 0})
+        elif r < 0.55:
+            d = rng.choice([1, 1, 2, 3])
+            hist.append({'op': 'adv', 'd': d})
+            clk += d
+        else:
+            due = clk >= WATCHDOG_DELAY
+            hist.append({'op': 'exec', 'gv': [rng.random() < 0.5 for _ in range(ntr)], 'cfail': 0,
+                         'mfail': 1 if due else 0})
+            if due:
+                break
+    return hist
+
+
 def run_history(c, hist, twin=None, **kw):
     """Replay `hist` on a fresh interpreter.  Stops after a fatal (contract/property) error.
     twin = dict(rel=..., kw=...) runs a second interpreter in lock step and attaches what it observed
@@ -294,7 +336,10 @@ def run_history(c, hist, twin=None, **kw):
         kb.update(twin.get('kw', {}))
         b, rel = Run(c, **kb), twin['rel']
     elif any(h.get('cfail') or h.get('mfail') for h in hist):
-        b, rel = Run(c, **kw), 'nofail'
+        kb = dict(kw)
+        if kb.get('monitor') == 'watchdog':
+            kb['monitor'] = False       # the failure-free twin of a watchdog run has no watchdog
+        b, rel = Run(c, **kb), 'nofail'
     lines = []
     for h in hist:
         o = r.call(h)
